@@ -38,9 +38,21 @@ type OpRef struct {
 // OpRefs is a sortable collection of operations
 type OpRefs []OpRef
 
-func (o OpRefs) Len() int           { return len(o) }
-func (o OpRefs) Swap(i, j int)      { o[i], o[j] = o[j], o[i] }
-func (o OpRefs) Less(i, j int) bool { return o[i].Key < o[j].Key }
+func (o OpRefs) Len() int      { return len(o) }
+func (o OpRefs) Swap(i, j int) { o[i], o[j] = o[j], o[i] }
+func (o OpRefs) Less(i, j int) bool {
+	if o[i].Key != o[j].Key {
+		return o[i].Key < o[j].Key
+	}
+
+	// distinct operations may yield the same key (e.g. "/a-b" and "/a_b"):
+	// keep the order independent of map iteration
+	if o[i].Path != o[j].Path {
+		return o[i].Path < o[j].Path
+	}
+
+	return o[i].Method < o[j].Method
+}
 
 // Provider knows how to collect operations from a spec
 type Provider interface {
